@@ -19,8 +19,8 @@ EXPLANATION = (
     'callbacks on the connection and on proxies obtained with explicit and with introspected interfaces loses its transport: '
     'every call fails once with the reason, no timer is left, each callback ran once, and later replies / clock advances fire '
     'nothing. All variables are finite selectors: the solver contributes exhaustive coverage of crash points and vectors.')
-BOUNDS = {'quick': 'addr: 4 address lists x all reachability vectors (<= 4 entries); crash: 4 transcripts x every byte offset; lost: j <= 2 calls x deadline masks x reply-before-loss choices',
-          'thorough': 'same (the spaces are exhausted in quick); lost with j <= 3'}
+BOUNDS = {'quick': 'addr: 4 address lists x all reachability vectors (<= 4 entries); crash: 4 transcripts x every byte offset; lost: j <= 3 calls x deadline masks x reply-before-loss choices',
+          'thorough': 'same (the spaces are exhausted in quick); lost with j <= 4'}
 ASSUMPTIONS = ['real sockets, DNS and launchd addresses are outside the claim (fake endpoints)',
                'the transport reports connectionLost after loseConnection() (as Twisted does)']
 STUBS = ['FakeEndpoint patched into txdbus.endpoints (UNIXClientEndpoint / TCP4ClientEndpoint)', 'FakeTransport whose loseConnection is followed by connectionLost',
@@ -42,7 +42,7 @@ def obligations(tier):
     for variant in ('ok', 'hello-error', 'refused', 'junk'):
         obs.append(Ob('crash:' + variant, 'crash', {'variant': variant}, timeout=900, path_timeout=60, twin=True,
                       functions=FUNCS[:7], bounds='crash point: every byte offset of the server transcript (symbolic selector)'))
-    jmax = 2 if tier == 'quick' else 3
+    jmax = 3 if tier == 'quick' else 4
     for j in range(0, jmax + 1):
         obs.append(Ob('lost:j%d' % j, 'lost', {'j': j}, timeout=900, path_timeout=60, twin=True, functions=FUNCS[6:10],
                       bounds='deadline mask, which calls were already answered, proxy kinds: symbolic selectors'))
